@@ -112,11 +112,7 @@ Theorem c14_chain_leaf_only :
   (forall disabled leaf rest,
      verify_peer raw cert parse H disabled fps (leaf :: rest) =
      verify_peer raw cert parse H disabled fps [leaf]).
-Proof.
-  intros raw cert parse H fps. repeat split.
-  - exact (verify_peer_accept_leaf raw cert parse H fps).
-  - exact (verify_peer_nonleaf_rejected raw cert parse H fps).
-Qed.
+Proof. exact chain_leaf_only. Qed.
 Print Assumptions c14_chain_leaf_only.
 
 (* totality of the callback: no certificate at all is an error, never a panic *)
@@ -125,11 +121,7 @@ Theorem c14_chain_total :
          disabled fps,
   verify_peer raw cert parse H disabled fps [] = (None, Err "no-remote-certificate") /\
   (forall chain, snd (verify_peer raw cert parse H disabled fps chain) <> Panic).
-Proof.
-  intros raw cert parse H disabled fps. split.
-  - reflexivity.
-  - exact (verify_peer_never_panics raw cert parse H disabled fps).
-Qed.
+Proof. exact chain_total. Qed.
 Print Assumptions c14_chain_total.
 
 (* extraction, all placement cases: session level first; else the bundle
